@@ -48,9 +48,9 @@ def oracle_hits(cases):
             lc = last_cache(spec)
             fields = [op['fields']] if isinstance(op['fields'], str) else list(op['fields'])
             ok_res = 'val' in ob['res']
-            if lc is not None and not has_byvalue(spec) and all(covers(lc, f) for f in fields) and not ob['bad']:
+            if lc is not None and not has_byvalue(spec) and all(covers(lc, f) for f in fields):
                 unbounded = lc['t'] in ('disk', 'columns') or lc.get('size') is None
-                if unbounded and prev is not None and prev[0] == (op['variant'], op['fields'], repr(op['key'])) and prev[1] and ok_res:
+                if unbounded and not ob['bad'] and prev is not None and prev[0] == (op['variant'], op['fields'], repr(op['key'])) and prev[1] and ok_res:
                     n += 1
                     if ob['log']:
                         viol.append({'signature': 'oracle:hit-ran-user-functions', 'case': histcorr._slim(c), 'observed': [x[0] for x in ob['log']],
@@ -61,13 +61,17 @@ def oracle_hits(cases):
                     for f in fields:
                         key = (op['variant'], builds[op['variant']], f)
                         rec = recency.get(key, [])
-                        if len(fields) == 1 and kk in rec[:lc['size']] and ok_res:
+                        if len(fields) == 1 and kk in rec[:lc['size']] and ok_res and not ob['bad']:
                             n += 1
                             if ob['log']:
                                 viol.append({'signature': 'oracle:lru-recency', 'case': histcorr._slim(c), 'observed': [x[0] for x in ob['log']],
                                              'what': f'history {i}: {op}: the key is among the {lc["size"]} most recently used ones but the call ran user functions'})
                         if ok_res:
+                            # a call made while a function was set to raise still touches the table when it succeeds (the function was not needed, or its entry was cached)
                             recency[key] = [kk] + [x for x in rec if x != kk]
+                        else:
+                            # a failed call may have stored entries of this field before it failed: nothing is claimed about the table until it is rebuilt
+                            recency[key] = []
             prev = ((op['variant'], op['fields'], repr(op['key'])), ok_res)
     return viol, n
 
